@@ -34,7 +34,7 @@ func checkC08(w *World, r *Report) {
 	ctxT := pr.ctxT
 	// R2
 	{
-		g := w.FG(pr.stopFn)
+		g := w.FGI(pr.stopFn)
 		del := w.Method("safemap", "SafeMap", "Delete")
 		_, nonNil := w.nilEdges(g, "~.context.parentCtx")
 		isNil, _ := w.nilEdges(g, "~.context.parentCtx")
@@ -76,7 +76,7 @@ func checkC08(w *World, r *Report) {
 	if sc == nil {
 		r.Unknown("C08.R3", "Context.SpawnChild", "SpawnChild exists", "-", "not found")
 	} else {
-		g := w.FG(sc)
+		g := w.FGI(sc)
 		site := w.fnPos(sc)
 		spawnProc := w.Method("actor", "Engine", "SpawnProc")
 		set := w.Method("safemap", "SafeMap", "Set")
@@ -144,7 +144,7 @@ func checkC08(w *World, r *Report) {
 	{
 		par := w.Method("actor", "Context", "Parent")
 		if ok, why := w.returnsOnly2(par, "P0.parentCtx.pid", "K:nil"); ok {
-			g := w.FG(par)
+			g := w.FGI(par)
 			_, nonNil := w.nilEdges(g, "P0.parentCtx")
 			okE := true
 			for _, x := range g.returns {
@@ -174,7 +174,7 @@ func checkC08(w *World, r *Report) {
 				if w.pathOf(c.Args[0]) == "P0.children" {
 					if mc, ok := c.Args[1].(*ssa.MakeClosure); ok {
 						cf := mc.Fn.(*ssa.Function)
-						cg := w.FG(cf)
+						cg := w.FGI(cf)
 						slot := make([]bool, len(cg.ins))
 						bump := make([]bool, len(cg.ins))
 						for i, in := range cg.ins {
@@ -202,8 +202,8 @@ func checkC08(w *World, r *Report) {
 							}
 						}
 						// the returned slice is the one the closure fills
-						for _, b := range children.Blocks {
-							for _, in := range b.Instrs {
+						for _, in := range w.insOf(children) {
+							{
 								if ret, ok := in.(*ssa.Return); ok {
 									if !strings.HasPrefix(w.pathOf(ret.Results[0]), "makeslice(call:(*safemap.SafeMap[K, V]).Len(P0.children)") {
 										okC = false
@@ -224,8 +224,8 @@ func checkC08(w *World, r *Report) {
 			if !w.isLib(fn) || fnPkgPath(fn) != modPath+"/actor" {
 				continue
 			}
-			for _, b := range fn.Blocks {
-				for _, in := range b.Instrs {
+			for _, in := range w.insOf(fn) {
+				{
 					if c := callOf(in); c != nil && c.StaticCallee() != nil {
 						o := origin(c.StaticCallee())
 						if (o == set || o == del) && strings.HasSuffix(w.pathOf(c.Args[0]), "children") {
@@ -285,7 +285,7 @@ func checkC14(w *World, r *Report) {
 	ops := w.atomicOpsOn(rb, "len")
 	// R2
 	{
-		g := w.FG(push)
+		g := w.FGI(push)
 		inc := make([]bool, len(g.ins))
 		other := false
 		for _, op := range ops {
@@ -311,7 +311,7 @@ func checkC14(w *World, r *Report) {
 	}
 	// R3
 	for _, fn := range []*ssa.Function{pop, popn} {
-		g := w.FG(fn)
+		g := w.FGI(fn)
 		site := w.fnPos(fn)
 		name := "RingBuffer." + fn.Name()
 		empty, nonEmpty := g.CondEdges(func(v ssa.Value) (bool, bool) {
